@@ -80,3 +80,12 @@ Proof.
   apply terminal_sound, C07_lmp_threshold_positive, Hd.
 Qed.
 Print Assumptions C07_terminal_sound_engine_thresholds.
+
+(* tie to the source: the constants the model copies from the Go source equal what the running engine reports
+   (gen/Tables_gen.v is regenerated on every run by `verifh dump-tables`) *)
+From Coq Require Import ZArith NArith. (* consts *)
+From FG Require ConstTie.
+From FG Require Terminal.
+Theorem C07_model_constants_dumped :
+  Terminal.MATE = c_value_checkmate /\ Terminal.DRAW = c_value_draw.
+Proof. exact ConstTie.terminal_constants_dumped. Qed.
